@@ -633,3 +633,19 @@ def counter_loops(path):
             else:
                 out.append({'header': hdr, 'frame': frame, 'enter': k, 'lo': b, 'hi': hi, 'local': local, 'kind': 'exit'})
     return out
+
+
+def foreach_assignments(cx, p):
+    """`iter.for_each(|x| *x = v)` calls on the path: list of (iterator term, assigned value, event index); the closure
+    must do nothing but that one store"""
+    out = []
+    for k, e in call_events(p):
+        if is_call(e, ITER, 'for_each') and len(e['args']) == 2 and e['args'][1][0] == 'agg' and e['args'][1][1][0] == 'closure':
+            cps = cx.closure_paths(e['args'][1], p, [('elem',)])
+            cps = returning(cps) if cps else []
+            if len(cps) != 1 or call_events(cps[0]):
+                continue
+            w = {loc: v for loc, v in cps[0]['writes'].items() if p['store'].get(loc) != v}
+            if list(w) == [(('P', ('elem',)), ())]:
+                out.append((e['args'][0], w[(('P', ('elem',)), ())], k))
+    return out
